@@ -213,6 +213,7 @@ var gxzMain func()
 // invoke runs main() once on the world.
 func invoke(w *simos.World, args []string) (res RunResult) {
 	simos.SetWorld(w)
+	w.BeginInvocation()
 	simos.Args = append([]string{"gxz"}, args...)
 	w.Stdout, w.Stderr = nil, nil
 	func() {
